@@ -123,6 +123,15 @@ class UserError(Exception):
     """Ordinary exception raised by generated service code."""
 
 
+def sized_recording_class():
+    """A recording class of a user-defined cassette that has a length (its number of data keys): an empty recording is falsy."""
+    global SizedRecording
+    if 'SizedRecording' not in globals():
+        from playback.recordings.memory.memory_recording import MemoryRecording
+        SizedRecording = type('SizedRecording', (MemoryRecording,), {'__module__': __name__, '__len__': lambda self: len(self.recording_data)})
+    return SizedRecording
+
+
 def service_side_error():
     """A service error class derived from the framework's base exception (the service wraps the framework in its storage layer)."""
     global ServiceSideError
